@@ -701,6 +701,17 @@ func (x *Exec) compileCall(env *Env, e *SCall) Value {
 		}
 		return x.compileTV(env, e.Args[i])
 	}
+	if i := strings.Index(e.Fun, "."); i > 0 && !isPkgName(e.Fun[:i]) {
+		// ident.M(args) where ident is a variable in scope: a method call on its value
+		if v, ok := env.resolveIdent(e.Fun[:i]); ok {
+			if tv, ok := v.(TV); ok {
+				if _, isIface := tv.Ty.Underlying().(*types.Interface); isIface {
+					ne := &SCall{Fun: e.Fun[i:], Args: append([]SExpr{&SIdent{e.Fun[:i]}}, e.Args...)}
+					return x.compileCall(env, ne)
+				}
+			}
+		}
+	}
 	if strings.HasPrefix(e.Fun, ".") {
 		// x.M(args): the value an interface method call returns (first result)
 		recv := argTV(0)
@@ -1219,4 +1230,22 @@ func specTypeName(t SExpr) string {
 		}
 	}
 	return ""
+}
+
+// resolveIdent looks a name up among bound variables, contract variables and locals.
+func (env *Env) resolveIdent(name string) (Value, bool) {
+	if b, ok := env.bound[name]; ok {
+		return b, true
+	}
+	if env.vars != nil {
+		if v, ok := env.vars[name]; ok {
+			return v, true
+		}
+	}
+	if env.lookup != nil {
+		if v, ok := env.lookup(name); ok {
+			return v, true
+		}
+	}
+	return nil, false
 }
